@@ -1,3 +1,5 @@
 import GfsProps.C13
 import GfsProps.C01
 import GfsProps.C02
+import GfsProps.C08
+import GfsProps.C11
